@@ -377,7 +377,7 @@ func init() {
 	Register(&Check{
 		ID:    "C10",
 		Level: "exploration",
-		Rule: "client inputs enumerated exhaustively from token alphabets: 9 command words x 12 option suffixes (incl. huge and negative context values) x all sequences of <=2 (quick) / <=3 (thorough) of 16 argument tokens (incl. globs in unclean path form); " +
+		Rule: "client inputs enumerated exhaustively from token alphabets: the product {-1,0,1,MinInt64,100000}^3 of before/after/max x {cat, grep} x 2 regexes on a readable file; 9 command words x 12 option suffixes (incl. huge and negative context values) x all sequences of <=2 (quick) / <=3 (thorough) of 16 argument tokens (incl. globs in unclean path form); " +
 			"'map' + all sequences of <=3 / <=4 of 28 query tokens; 23 well-formed query shapes with every slot filled by each of 13 non-ASCII words (invalid UTF-8 bytes, letters whose case mapping changes the byte length, wide and combining characters, NUL); map followed by a read command; 6 log formats x 4 queries x 5 data files with ragged CSV rows, blank lines, malformed key-value tokens, truncated default-format lines and binary bytes; every ordered pair and triple over 6 well-formed commands (cat of a 1500-line file, cat, tail, grep, two map queries) on one session, back to back and 2 ms apart with 1 ms per read(2) (so that later commands arrive while earlier ones are at work); all <=4-token sequences of 8 protocol-envelope tokens (the short ones also at server log levels fatal/none/info/debug); 3 commands split across two Write " +
 			"calls at every byte; 8 inputs to a health session; plus, under all schedules within two deviations, 4 sessions whose commands finish together so that several goroutines complete the close hand-shake at once.  Each is fed to a real ServerHandler/HealthHandler under the controlled scheduler (panic in ANY goroutine is caught), " +
 			"then a second user's session on the same limiters must still deliver its file.  non-trivial = distinct input strings",
